@@ -31,7 +31,7 @@ type Case struct {
 }
 
 func genCase(t *rapid.T) (Case, *env.Env) {
-	tg := gen.Target(t, assetgen.Opts{AllowText: true, AllowThumb: true}, 35, nil)
+	tg := gen.Target(t, assetgen.Opts{AllowText: true, AllowThumb: true, VStart: true}, 35, nil)
 	e, err := env.Get(tg)
 	if err != nil {
 		t.Fatalf("HARNESS: %v", err)
